@@ -8,6 +8,7 @@ package storage
 
 import (
 	"fmt"
+	"math/rand"
 	"os"
 	"strings"
 	"testing"
@@ -137,6 +138,18 @@ func TestVerifReplayState(t *testing.T) {
 		}
 	}
 	rec(0)
+	// longer random sequences (seeded): violations that need a commit in between or several sessions
+	seed := int64(1)
+	fmt.Sscan(os.Getenv("VERIF_SEED"), &seed)
+	rng := rand.New(rand.NewSource(seed))
+	for n := 0; n < 6000 && failures == 0; n++ {
+		seq = seq[:0]
+		l := 5 + rng.Intn(10)
+		for i := 0; i < l; i++ {
+			seq = append(seq, rng.Intn(len(ops)))
+		}
+		check()
+	}
 	if failures > 0 {
 		t.Errorf("%d violations of the C09 read rules on the real storage.State", failures)
 	}
